@@ -68,6 +68,10 @@ def plan(tier, seed):
         for part in range(3):
             specs.append({"name": "fault-%d-%d" % (d, part), "kind": "fault", "dataset": 20 + d, "part": part, "parts": 3, "timeout": 3600})
     specs.append({"name": "faultinj", "kind": "faultinj", "dataset": 30, "timeout": 3600})
+    # session 4: the interpreter's hash seed is not an input - repeated runs in processes with different PYTHONHASHSEED (the
+    # default is a random one per process) on inputs that produce exact posterior ties (read-less samples, short chains)
+    for pi_, p in enumerate(("call", "call-pedigree", "assemble", "call-exact")):
+        specs.append({"name": "hash-%s" % p, "kind": "hashseed", "dataset": 50 + pi_ % 2, "program": p, "timeout": 3600})
     # the block split over workers: every (--cores, number of loci) pair of a grid, in-process with the real pool / queue / writer
     n_split = 4 if q else 8
     for part in range(n_split):
@@ -81,7 +85,8 @@ def required(tier):
             "inproc_permuted_runs": 2, "inproc_subset_runs": 4, "history_variants_compared": 12, "fault_runs": 10,
             "fault_positions_covered": 5, "fault_runs_multicore": 5, "injected_fault_runs": 3,
             "fault_runs_failing_block_finishes_last": 8, "fault_runs_single_locus_multicore": 1,
-            "split_grid_pairs": 600, "split_records_compared": 15000, "split_assemble_pairs": 40, "inproc_option_variants": 4}
+            "split_grid_pairs": 600, "split_records_compared": 15000, "split_assemble_pairs": 40, "inproc_option_variants": 4,
+            "hashseed_runs_compared": 10}
 
 
 def coverage_extra(tier, col):
@@ -213,6 +218,7 @@ def run_cores(tier, seed, spec, col):
             inj = "delay=%d:%d" % (seed * 100 + d * 7 + cores, 400)
             e = dict(base_env)
             e["MCHAP_VERIF_INJECT"] = inj
+            e["PYTHONHASHSEED"] = str(1 + (cores * 7 + d) % 50)   # the single-core reference ran with hash seed 0
             rc, out2, err2 = cli.run_subprocess(argv_for(ds, prog, cores=cores, mseed=mseed), timeout=WATCHDOG, extra_env=e)
             col.count("subprocess_runs")
             col.add_to_set("cores", cores)
@@ -492,6 +498,52 @@ def run_faultinj(tier, seed, spec, col):
 # split: how the loci are divided over workers
 
 
+def run_hashseed(tier, seed, spec, col):
+    prog = spec["program"]
+    ds = build(seed, spec["dataset"], spec["name"], depth=(6, 12))
+    # one sample loses all its reads: with no data its posterior is symmetric in the alleles and short chains tie exactly
+    victim = "S2"
+    bam = ds.sample_bam[victim]
+    ids = set(ds.sample_rgs[victim])
+    keep = [a for a in ds.bam_alignments[bam] if a["rg"] not in ids]
+    datasets.write_bam(bam, ds.contigs, ds.bam_rgs[bam], keep)
+    inject = os.path.join(env.VERIF, "inject")
+    base_env = {"PYTHONPATH": os.pathsep.join([inject] + os.environ.get("PYTHONPATH", "").split(os.pathsep))}
+    short = ["--mcmc-steps", "40", "--mcmc-burn", "20"] if prog != "call-exact" else []
+    ref = None
+    for hs in (["0", "1", "2", "3"] if tier == "quick" else ["0", "1", "2", "3", "4", "5", "17", "random"]):
+        args = [a for a in argv_for(ds, prog, cores=1, mseed=SEEDS[spec["dataset"] % 2])]
+        if short:
+            # replace the default chain length of this check by a short one
+            for k_, v_ in (("--mcmc-steps", "40"), ("--mcmc-burn", "20")):
+                args[args.index(k_) + 1] = v_
+        e = dict(base_env)
+        e["PYTHONHASHSEED"] = hs
+        rc, out, err = cli.run_subprocess(args, timeout=WATCHDOG, extra_env=e)
+        col.count("subprocess_runs")
+        col.count("hashseed_runs")
+        case = {"dataset": spec["dataset"], "program": prog, "seed": seed, "hashseed": hs, "kind": "hashseed"}
+        col.case(case, nontrivial=True)
+        if rc == "timeout":
+            col.inconclusive_note("%s (PYTHONHASHSEED=%s) timed out" % (prog, hs))
+            continue
+        if rc != 0:
+            col.violation("program-fails-on-valid-input", "%s (PYTHONHASHSEED=%s) exited %r: %s" % (prog, hs, rc, err[-600:]), case)
+            continue
+        recs = cli.record_lines(out)
+        if ref is None:
+            ref = (recs, stable_header(out))
+            continue
+        col.count("hashseed_runs_compared")
+        if recs != ref[0]:
+            diff = [(a[:200], b[:200]) for a, b in zip(ref[0], recs) if a != b][:1]
+            col.violation("record-depends-on-interpreter-hash-seed", "%s: same command, same --mcmc-seed, PYTHONHASHSEED=%s vs 0: %d record(s) differ, e.g. %s"
+                          % (prog, hs, sum(1 for a, b in zip(ref[0], recs) if a != b) + abs(len(recs) - len(ref[0])), diff), case)
+        if stable_header(out) != ref[1]:
+            col.violation("header-depends-on-interpreter-hash-seed", "%s: header differs between PYTHONHASHSEED=%s and 0" % (prog, hs), case)
+    shutil.rmtree(ds.root, ignore_errors=True)
+
+
 def run_to_file(args, path):
     """In-process run whose stdout is a real file, so that the forked writer process of a multi-core run shares it."""
     from mchap.application import cli as mcli
@@ -605,7 +657,7 @@ def run_split(tier, seed, spec, col):
 
 
 def run_shard(tier, seed, spec, col):
-    {"cores": run_cores, "inproc": run_inproc, "fault": run_fault, "faultinj": run_faultinj, "split": run_split}[spec["kind"]](tier, seed, spec, col)
+    {"cores": run_cores, "inproc": run_inproc, "fault": run_fault, "faultinj": run_faultinj, "split": run_split, "hashseed": run_hashseed}[spec["kind"]](tier, seed, spec, col)
 
 
 def replay(obj, col):
